@@ -21,7 +21,8 @@ EXPLANATION = (
     "presolver.count_reduced() next to their labels."
     " (R6) cone-size list of the header: the closing entry is the last cone of the type, entries are numel() of the cones with the matching tag; (R7) the solution copies iterations and residuals from the info on every path (C03.R1 re-run)."
     " (R8) the 'removed N constraints' figure: bookkeeping of the presolve reduction map (C09.R2 re-run)."
-    " (R9) every print_to_* installs a freshly constructed target unconditionally; (R10) the header asks for the per-type line of every variant of SupportedConeTag.")
+    " (R9) every print_to_* installs a freshly constructed target unconditionally; (R10) the header asks for the per-type line of every variant of SupportedConeTag."
+    ' (R12) Display for SolverStatus, through which the footer prints the status, gives distinct variants distinct names and no variant the name of another (derived Debug, a literal per arm, or a name function are followed).')
 ASSUMPTIONS = ['rustc MIR construction and trait resolution are correct',
                'std::io::Write::write_fmt writes exactly the formatted bytes through Write::write (write_all loop)']
 
@@ -614,6 +615,92 @@ def buffer_read_only(rep, F, tag):
     R.guard(body)
 
 
+def status_names(rep, F, tag):
+    """"the printed footer agrees with the returned solution": the footer prints the status through Display for SolverStatus.  Whatever
+    wording Display chooses, it must tell the variants apart and must not give one variant another variant's name."""
+    R = rep.rule('C20.R12', 'Display for SolverStatus: distinct variants print distinct names, and no variant prints the name of another')
+
+    def body():
+        variants = {int(v['discr']) if v['discr'] is not None else i: v['n'] for i, v in enumerate(F.adt('SolverStatus')['variants'])}
+        nrm = lambda t: re.sub(r'[^a-z0-9]', '', t.lower())
+
+        def impl(trait):
+            fs = [x for x in F.fns if x.name == 'fmt' and last_seg(strip_generics(x.impl_self or '')) == 'SolverStatus' and (x.impl_trait or '').endswith(trait)]
+            if len(fs) != 1:
+                raise AnchorError('%s for SolverStatus matched %d functions' % (trait, len(fs)))
+            return fs[0]
+
+        def table(g, depth=0):
+            """discr -> printed text (None = unknown form)"""
+            out = {}
+            for val, ret, ev, tr in Walker(g).leaves():
+                if ret[0] == 'diverge':
+                    continue
+                d = val.get('discr(self)')
+                texts = []
+                if ret[0] == 's' and re.fullmatch(r'"[^"]*"', str(ret[1])):
+                    texts.append(str(ret[1])[1:-1])
+                for e in ev:
+                    if e[0] != 'call':
+                        continue
+                    k = str(e[2])
+                    m = re.fullmatch(r'write_str\(arg2, "([^"]*)"\)', k)
+                    if m:
+                        texts.append(m.group(1))
+                        continue
+                    m = re.fullmatch(r'(?:write_str|pad)\(arg2, var:(\w+)\)', k)
+                    if m:
+                        # a local given a literal in each arm of a match: take the assignment on this path
+                        ls = [i for i, l in enumerate(g.locals) if l['n'] == m.group(1) or '_%d' % i == m.group(1)]
+                        got = []
+                        for bi, si, st in g.assignments():
+                            if bi in tr and not st['p']['p'] and st['p']['l'] in ls:
+                                got.append(canon(g.sym_rvalue(st['rv'])))
+                        texts.append(got[0][1:-1] if len(got) == 1 and re.fullmatch(r'"[^"]*"', got[0]) else None)
+                        continue
+                    m = re.fullmatch(r'(?:write_str|pad)\(arg2, (\w+)\(self\)\)', k) or (re.fullmatch(r'new_display\((\w+)\(self\)\)', k))
+                    if m and depth < 2:
+                        hs = [x for x in F.find(name=m.group(1)) if last_seg(strip_generics(x.impl_self or '')) == 'SolverStatus']
+                        if len(hs) == 1:
+                            sub = table(hs[0], depth + 1)
+                            if d is None:
+                                return sub
+                            texts.append(sub.get(d))
+                        continue
+                    if k == 'new_debug(self)':
+                        dbg = impl('Debug')
+                        sub = table(dbg, depth + 1)
+                        if dbg.j.get('impl_exp') and any(v is None for v in sub.values()):
+                            sub = dict(variants)          # derived: the compiler writes the variant's own name
+                        if d is None:
+                            return sub
+                        texts.append(sub.get(d))
+                if d is None:
+                    return {dd: None for dd in variants}
+                out[d] = texts[0] if len(texts) == 1 else None
+            return out
+
+        D = impl('Display')
+        lits = [t for t, srcs, c in fmt_sources(D) if re.sub(r'b?"(\\x[0-9a-f]{2})*"', '', t)]
+        T = table(D)
+        unknown = [variants[d] for d in variants if T.get(d) is None]
+        R.check(not unknown and not lits, 'form' + tag, 'the text Display prints for %s could not be determined (accepted: the derived Debug name, a literal per variant, or a '
+                'per-variant name function of self)' % (unknown or lits), D.loc())
+        if unknown:
+            return
+        own = {nrm(n): d for d, n in variants.items()}
+        seen = {}
+        for d, n in sorted(variants.items()):
+            t = T[d]
+            R.check(t not in seen, 'distinct|%s%s' % (n, tag), 'SolverStatus::%s and SolverStatus::%s both print as "%s": the footer of a solve that ends in one cannot be told from the other, '
+                    'and disagrees with solution.status' % (n, variants.get(seen.get(t), '?'), t), D.loc())
+            seen.setdefault(t, d)
+            R.check(own.get(nrm(t), d) == d, 'own-name|%s%s' % (n, tag), 'SolverStatus::%s prints as "%s", the name of another status' % (n, t), D.loc())
+        R.check(len(variants) >= 11, 'variants' + tag, 'only %d status variants' % len(variants))
+
+    R.guard(body)
+
+
 def run(ctx, rep, tier):
     for cfg in CONFIGS:
         F = ctx.facts(cfg)
@@ -629,6 +716,7 @@ def run(ctx, rep, tier):
         fresh_targets(rep, F, tag)
         buffer_read_only(rep, F, tag)
         cone_type_lines(rep, F, tag)
+        status_names(rep, F, tag)
         # 'presolve: removed N constraints' is mfull - mreduced: the bookkeeping of the reduction map (C09.R2 re-run)
         from . import c09
         c09.drop_condition(c04._Ren(rep, 'C09.R2', 'C20.R8'), F, tag)
